@@ -72,8 +72,27 @@ def values(base):
                       (FLIP[k] + inner, 1),                                       # the outermost kind differs
                       (k + inner[1:], 1)]                                         # one level missing
     base = int(base)
-    other = (base + 1) % 3
+    # the ill-typed value is one that python considers EQUAL to a value of the base type where such a type exists:
+    # INTEGER(0) == REAL(0.0) == False; a membership test taken before the type check would let it through
+    other = {0: 2, 1: 0, 2: 0, 3: 0, 4: 3}[base]
     return [(base, 0), (base, 1), (other, 0)]
+
+
+NUMERIC = [0, 2, 3]        # INTEGER, REAL (whole numbers), BOOLEAN: python-equal across types for the same number
+
+
+def cross_type_alphabet(d):
+    """two values of the base type and every differently typed value python-equal to one of them (plus unrelated ones),
+    offered to the mutator of the aggregate"""
+    k, lo, hi, base = d[0], d[1], d[2], d[3]
+    offers = [(base, 0), (base, 1)]
+    offers += [(t, v) for t in NUMERIC if t != base for v in (0, 1)] + [(1, 0), (4, 0), (4, 1)]
+    offers = [o for o in dict.fromkeys(offers) if not (o[0] == base and o not in [(base, 0), (base, 1)])]
+    if k == "ARRAY":
+        return [("set", i) + v for i in range(lo, hi + 1) for v in offers]
+    if k == "LIST":
+        return [("set", i) + v for i in (1, 2) for v in offers]
+    return [("add",) + v for v in offers]
 
 
 def alphabet(d, rich=True):
@@ -85,7 +104,8 @@ def alphabet(d, rich=True):
         top = 3 if hi is None else min(hi, 3)
         idx = list(range(0, top + 2))
     else:
-        return [("add",) + v for v in vs + [(base, 2)]]        # a third value of the base type
+        third = [] if str(base) == "3" else [(base, 2)]           # BOOLEAN has two values only
+        return [("add",) + v for v in vs + third]                   # a third value of the base type
     ops = [("set", i) + v for i in idx for v in vs]
     ops += [("get", i) for i in idx]
     return ops
@@ -122,7 +142,7 @@ ILLEGAL = [("ARRAY", 2, 1, 0, 0, 0, 0), ("ARRAY", 1, None, 0, 0, 0, 0), ("ARRAY"
 def random_decl(rng):
     k = rng.choice(["ARRAY", "LIST", "LIST", "BAG", "SET"])
     r = rng.random()
-    base = rng.choice(DEEP) if r < 0.12 else rng.choice(NESTED) if r < 0.35 else rng.randrange(3)
+    base = rng.choice(DEEP) if r < 0.12 else rng.choice(NESTED) if r < 0.35 else rng.randrange(5)
     if k == "ARRAY":
         lo = rng.choice([-3, -1, 0, 1, 1, 2, 5])
         hi = lo + rng.choice([0, 1, 2, 3, 5, 8])
@@ -141,9 +161,15 @@ class Cursor:
 
     def val(self):
         rng, base = self.rng, self.d[3]
-        if rng.random() < (0.25 if is_nested(base) else 0.08):
-            return rng.choice(values(base)[2:])[:1] + (rng.randrange(self.nvals),)
-        return (base, rng.randrange(self.nvals))
+        def payload(t):
+            return rng.randrange(2 if str(t) == "3" else self.nvals)       # BOOLEAN: False / True
+        if rng.random() < (0.25 if is_nested(base) else 0.15):
+            if is_nested(base):
+                t = rng.choice(values(base)[2:])[0]
+            else:
+                t = rng.choice([x for x in range(5) if x != int(base)])     # often python-equal to a member (same payload range)
+            return (t, payload(t))
+        return (base, payload(base))
 
     def op(self):
         rng, (k, lo, hi) = self.rng, self.d[:3]
@@ -516,6 +542,17 @@ def batches(ctx):
     else:
         yield "exhaustive-nested-3", nested(NESTED, 3)
         yield "exhaustive-nested-4", nested(NESTED[:2], 4, full=False)
+    # values of another type that python considers equal to a member, offered to every mutator of every kind
+    ct_decls = [d for b in (0, 2, 3, 4, 1)
+                for d in array_decls([(1, 2)], b) + list_decls([(0, None), (0, 2)], b) + coll_decls([(0, None), (0, 1), (0, 2)], b)]
+    for depth in ((1, 2) if quick else (1, 2, 3)):
+        yield f"exhaustive-cross-type-equal-{depth}", ((d, list(seq) + QUERIES) for d in ct_decls
+                                                      for seq in itertools.product(cross_type_alphabet(d), repeat=depth))
+    # LOGICAL and BOOLEAN base types (Unknown, False/True) through the ordinary alphabets
+    for depth in (1, 2, 3):
+        yield f"exhaustive-logical-boolean-{depth}", (h for b in (3, 4)
+                                                     for d in array_decls([(1, 2)], b) + list_decls([(0, None), (0, 2)], b) + coll_decls([(0, None), (0, 2)], b)
+                                                     for h in exhaustive(d, depth))
     # the built-in functions of Builtin.py on every state reached by short histories
     for depth in (1, 2, 3):
         yield f"exhaustive-builtins-{depth}", (h for d in array_decls([(1, 2)]) + list_decls([(0, 2), (1, None)]) + coll_decls([(0, 2), (2, None)])
@@ -575,6 +612,23 @@ def probe_element_bounds(ctx, sides):
     ctx.cov["correspondence"]["element-bounds-probe"] = {"pairs": len(lines) - 1, "runtime_accepts_expresss_refuses": n_ignored}
 
 
+def fallback_generated():
+    """When the extractor no longer matches the tree under test (a broken tie, reported by ctx.lean) the private Lean copy
+    would keep whatever Generated file it had and the drivers might not build: give it the committed one (valid for /repo) so
+    that the specification driver - the oracle - is current and the violation search can still produce a replay."""
+    import importlib.util, shutil
+    from vlib import lean as L
+    src = os.path.join(VERIF, "lean", "StepModel", "Generated", "PyAggGen.lean")
+    dst = os.path.join(L.GEN_DIR, "PyAggGen.lean")
+    try:
+        spec = importlib.util.spec_from_file_location("x_pyagg", os.path.join(VERIF, "tools", "extract.d", "pyagg.py"))
+        m = importlib.util.module_from_spec(spec); spec.loader.exec_module(m)
+        m.extract(B.REPO)
+    except Exception:
+        if os.path.abspath(src) != os.path.abspath(dst):
+            shutil.copyfile(src, dst)
+
+
 def run(ctx):
     ctx.trusted += [
         "tools/extract.d/pyagg.py (ast translation of the bound arithmetic in AggregationDataTypes.py to Lean)",
@@ -588,6 +642,7 @@ def run(ctx):
         "indices and bounds are Python ints (a non-int index/bound is outside the model)",
         "the lower bound of LIST/BAG/SET constrains the finished value, not the operations that build it",
     ]
+    fallback_generated()
     proof_ok = ctx.lean("StepModel.Props.C19", exes=["m_c19"], extractors=EXTRACTORS)
     if not os.path.exists(ctx.model_exe("m_c19")):
         return
